@@ -1,8 +1,9 @@
 (** Extraction of the RIFF container models used by C15/C16/C17 (ExtrOcamlBasic only).
-    The same file is used by extract/c15, extract/c16 and extract/c17. *)
+    extract/c15 and extract/c16 use the same file without the Go bool reader
+    (Vp8.Vp8GoReader / Riff.PrefixBitio), which only C17 runs (op B). *)
 From Coq Require Import ZArith List.
 From Coq Require Import ExtrOcamlBasic.
-From Webp Require Riff.ParserModel Riff.WriterModel Riff.FeaturesModel Riff.ParserSpec.
+From Webp Require Riff.ParserModel Riff.WriterModel Riff.FeaturesModel Riff.ParserSpec Vp8.Vp8GoReader Riff.PrefixBitio.
 
 Separate Extraction
   BinInt.Z.add BinInt.Z.mul BinInt.Z.sub BinInt.Z.opp BinInt.Z.div BinInt.Z.modulo
@@ -11,4 +12,5 @@ Separate Extraction
   WriterModel.write_riff WriterModel.write_lossless_stream WriterModel.encode_lossless_container
   WriterModel.anim_close
   FeaturesModel.decode_bytes FeaturesModel.decode_config FeaturesModel.get_features FeaturesModel.sniff
-  ParserSpec.spec_get_chunk ParserSpec.riff_wf ParserSpec.riff_chunks.
+  ParserSpec.spec_get_chunk ParserSpec.riff_wf ParserSpec.riff_chunks
+  Vp8GoReader.gr_bit PrefixBitio.gr_new.
